@@ -1,6 +1,7 @@
 package verifh
 
 import (
+	"bufio"
 	"bytes"
 	"context"
 	"encoding/json"
@@ -243,3 +244,123 @@ func algoFromSpelling(s string) int {
 
 var digitSpellings = []string{"6", "8", "9", "10", "6", "8", "10", "7", "06", " 6", "six", "", "10 ", "0", "11"}
 var algoSpellings = []string{"SHA1", "SHA256", "SHA512", "SHA1", "SHA256", "SHA512", "sha256", "SHA-256", "MD5", "", "SHA384"}
+
+// ---------------------------------------------------------------------------
+// HTTP-level variants of one and the same well-formed request. The statement of C18 is about the request's
+// fields; how the bytes travel (chunked or with a length, header spelling, an extra query string, pipelined)
+// must not change the answer.
+
+var httpVariants = []string{"plain", "chunked", "ctype-charset", "no-ctype", "query-string", "expect-continue", "raw-lowercase-headers", "accept-gzip", "pipelined-pair", "http10"}
+
+var gzipClient = &http.Client{Timeout: 20 * time.Second, Transport: &http.Transport{MaxConnsPerHost: 4, IdleConnTimeout: 5 * time.Second}}
+
+func parseResult(status int, b []byte, err error, t0 time.Time) httpResult {
+	r := httpResult{Status: status, Body: b, Err: err, Dur: time.Since(t0)}
+	if err == nil {
+		dec := json.NewDecoder(bytes.NewReader(b))
+		dec.UseNumber()
+		var m map[string]any
+		if dec.Decode(&m) == nil {
+			r.JSON = m
+		}
+	}
+	return r
+}
+
+type unknownLen struct{ r io.Reader }
+
+func (u unknownLen) Read(p []byte) (int, error) { return u.r.Read(p) }
+
+// doV issues a POST in one of the httpVariants.
+func (s *restServer) doV(path string, body []byte, fresh bool, timeout time.Duration, variant int) httpResult {
+	v := httpVariants[variant%len(httpVariants)]
+	t0 := time.Now()
+	switch v {
+	case "plain":
+		return s.do("POST", path, body, fresh, timeout)
+	case "raw-lowercase-headers", "pipelined-pair", "http10":
+		freshSem <- struct{}{}
+		defer func() { <-freshSem }()
+		c, err := net.DialTimeout("tcp", s.addr, 5*time.Second)
+		if err != nil {
+			return httpResult{Err: err}
+		}
+		defer c.Close()
+		c.SetDeadline(time.Now().Add(timeout))
+		var req bytes.Buffer
+		n := 1
+		switch v {
+		case "raw-lowercase-headers":
+			fmt.Fprintf(&req, "POST %s HTTP/1.1\r\nhost: x\r\nx-forwarded-for: 10.0.0.1\r\naccept: */*\r\nconnection: close\r\ncontent-type: application/json\r\ncontent-length: %d\r\n\r\n", path, len(body))
+			req.Write(body)
+		case "http10":
+			fmt.Fprintf(&req, "POST %s HTTP/1.0\r\nHost: x\r\nContent-Type: application/json\r\nContent-Length: %d\r\n\r\n", path, len(body))
+			req.Write(body)
+		default:
+			n = 2
+			for k := 0; k < 2; k++ {
+				conn := "keep-alive"
+				if k == 1 {
+					conn = "close"
+				}
+				fmt.Fprintf(&req, "POST %s HTTP/1.1\r\nHost: x\r\nConnection: %s\r\nContent-Type: application/json\r\nContent-Length: %d\r\n\r\n", path, conn, len(body))
+				req.Write(body)
+			}
+		}
+		go c.Write(req.Bytes())
+		br := bufio.NewReader(c)
+		var last httpResult
+		for k := 0; k < n; k++ {
+			resp, rerr := http.ReadResponse(br, &http.Request{Method: "POST"})
+			if rerr != nil {
+				return httpResult{Err: fmt.Errorf("%s: response %d of %d: %v", v, k+1, n, rerr), Dur: time.Since(t0)}
+			}
+			b, rerr := io.ReadAll(io.LimitReader(resp.Body, 8<<20))
+			resp.Body.Close()
+			cur := parseResult(resp.StatusCode, b, rerr, t0)
+			if k == 1 && (cur.Status != last.Status) {
+				return httpResult{Err: fmt.Errorf("pipelined pair of identical requests answered %d %s and %d %s", last.Status, trunc(string(last.Body), 120), cur.Status, trunc(string(cur.Body), 120))}
+			}
+			last = cur
+		}
+		return last
+	}
+	cl := sharedClient
+	ctx, cancel := context.WithTimeout(context.Background(), timeout)
+	defer cancel()
+	var rd io.Reader = bytes.NewReader(body)
+	url := "http://" + s.addr + path
+	if v == "query-string" {
+		url += "?trace=1&x=%7B%22secret%22%3A%22A%22%7D&secret=AAAA"
+	}
+	if v == "chunked" {
+		rd = unknownLen{bytes.NewReader(body)}
+	}
+	req, err := http.NewRequestWithContext(ctx, "POST", url, rd)
+	if err != nil {
+		return httpResult{Err: err}
+	}
+	switch v {
+	case "chunked":
+		req.ContentLength = -1
+		req.Header.Set("Content-Type", "application/json")
+	case "ctype-charset":
+		req.Header.Set("Content-Type", "application/json; charset=utf-8")
+	case "no-ctype":
+	case "expect-continue":
+		req.Header.Set("Content-Type", "application/json")
+		req.Header.Set("Expect", "100-continue")
+	case "accept-gzip":
+		req.Header.Set("Content-Type", "application/json")
+		cl = gzipClient // transparent decompression if the service compresses
+	default:
+		req.Header.Set("Content-Type", "application/json")
+	}
+	resp, err := cl.Do(req)
+	if err != nil {
+		return httpResult{Err: err, Dur: time.Since(t0)}
+	}
+	defer resp.Body.Close()
+	b, err := io.ReadAll(io.LimitReader(resp.Body, 8<<20))
+	return parseResult(resp.StatusCode, b, err, t0)
+}
